@@ -237,6 +237,13 @@ def run(ctx):
                               "wallet-present.jsonl", replay_text(i))
     ctx.oblige("oracle:api-handlers/wallet/tampered-revocations(impl)", edge_bad == 0 and (n_edge > 0 or bool(ctx.replay)), f"{edge_bad} wrong of {n_edge}")
 
+    # a JWT whose algorithm does not fit the curve of the signing key is never reported valid
+    misfit = sum(1 for i, op in enumerate(ops) if op.get("mut") == "alg-key-mismatch")
+    misfit_ok = [i for i, op in enumerate(ops) if op.get("mut") == "alg-key-mismatch" and impl[i].startswith("ok")]
+    for i in misfit_ok:
+        ctx.violation("C01:jwt-algorithm-does-not-fit-key-but-reported-valid:" + ops[i]["op"], f"{ops[i]['label']} is reported valid", "alg-key.jsonl", replay_text(i))
+    ctx.oblige("oracle:jwt-algorithm-fits-key(impl)", not misfit_ok and (misfit > 0 or bool(ctx.replay)), f"{len(misfit_ok)} accepted of {misfit}")
+
     # the issuer refuses to sign (JSON-LD) what the context does not define — those members would not be covered by the signature
     signed_undefined = 0
     n_issue = 0
